@@ -52,11 +52,11 @@ macro_rules! invert_state_case {
 }
 //@ob fn="<Invert<E> as Updatable<E>>::update" at=src/devices.rs:38 clause="neither terminal has a state: term1 := -; term2 := - (nothing written, Ok, no panic)"
 invert_state_case!(c08_invert_neither, false, false);
-//@ob fn="<Invert<E> as Updatable<E>>::update" at=src/devices.rs:38 prop=C08,C03 also_thorough=rel_check clause="only side 1 has a state: term1 := - (unchanged); term2 := -(s1) @t1"
+//@ob fn="<Invert<E> as Updatable<E>>::update" at=src/devices.rs:38 prop=C08,C03 also=rel_check clause="only side 1 has a state: term1 := - (unchanged); term2 := -(s1) @t1"
 invert_state_case!(c08_invert_only1, true, false);
 //@ob fn="<Invert<E> as Updatable<E>>::update" at=src/devices.rs:38 prop=C08,C03 also_thorough=rel_check clause="only side 2 has a state: term1 := -(s2) @t2; term2 := - (unchanged)"
 invert_state_case!(c08_invert_only2, false, true);
-//@ob fn="<Invert<E> as Updatable<E>>::update" at=src/devices.rs:38 prop=C08,C03 also=rel_check clause="both present: term1 := (s1 - s2)/2 @max(t1,t2); term2 := -((s1 - s2)/2) @max(t1,t2)"
+//@ob fn="<Invert<E> as Updatable<E>>::update" at=src/devices.rs:38 prop=C08,C03 also_thorough=rel_check clause="both present: term1 := (s1 - s2)/2 @max(t1,t2); term2 := -((s1 - s2)/2) @max(t1,t2)"
 invert_state_case!(c08_invert_both, true, true);
 
 // Harness with connected partner terminals: update() consumes the terminal READ (C09's contract: mean of own
